@@ -253,3 +253,54 @@ impl<V> Drop for AsyncLruCacheEntryInner<V> {
         }
     }
 }
+
+/// Verification hook (only with `--cfg qcow2_rs_verif`): drives one cache with
+/// a script of operations and reports the cached keys after each step, so an
+/// external model of the eviction policy can be compared with this code.
+#[cfg(qcow2_rs_verif)]
+pub mod verif {
+    use super::*;
+
+    /// `ops`: (0, k) load `k` and commit; (1, k) take and keep one reference;
+    /// (2, k) drop the kept references of `k`; (3, k) mark dirty; (4, k) lookup;
+    /// (5, _) shrink. Returns "<cached keys> | <dirty keys returned by commit>"
+    /// per step.
+    pub fn cache_script(limit: usize, ops: &[(u8, usize)]) -> Vec<String> {
+        let cache: AsyncLruCache<usize, usize> = AsyncLruCache::new(limit);
+        let mut held: Vec<(usize, AsyncLruCacheEntry<usize>)> = Vec::new();
+        let mut out = Vec::new();
+
+        for (op, k) in ops {
+            let mut evicted: Vec<usize> = Vec::new();
+            match op {
+                0 => {
+                    let e = cache.put_into_wmap_with(*k, || *k);
+                    if let Some(v) = cache.commit_wmap() {
+                        evicted = v.into_iter().map(|(key, _)| key).collect();
+                    }
+                    drop(e);
+                }
+                1 => {
+                    if let Some(e) = cache.get(*k) {
+                        held.push((*k, e));
+                    }
+                }
+                2 => held.retain(|(key, _)| key != k),
+                3 => {
+                    if let Some(e) = cache.get(*k) {
+                        e.set_dirty(true);
+                    }
+                }
+                4 => {
+                    let _ = cache.get(*k);
+                }
+                _ => cache.shrink(),
+            }
+            let mut keys: Vec<usize> = cache.rmap.read().unwrap().keys().cloned().collect();
+            keys.sort();
+            evicted.sort();
+            out.push(format!("{:?} | {:?}", keys, evicted));
+        }
+        out
+    }
+}
